@@ -173,6 +173,8 @@ impl File {
             })
             .collect::<Vec<_>>();
 
+        let signal_names: HashSet<String> = signals.iter().map(|s| s.name.clone()).collect();
+
         let mut test_signal_names: HashSet<String> = HashSet::new();
         let mut bidirectional: HashSet<String> = HashSet::new();
         for test_case in &test_cases {
@@ -181,16 +183,25 @@ impl File {
                 .map(|(signals, _)| signals)
                 .map_err(|_| DigFileErrorKind::EmptyTest)?
             {
-                if let Some(stripped_name) = name.strip_suffix("_out") {
-                    let stripped_name = stripped_name.to_string();
+                // `<name>_out` denotes the output side of a bidirectional signal only if
+                // no pin is itself labelled `<name>_out` and `<name>` is an input
+                let stripped_name = name
+                    .strip_suffix("_out")
+                    .filter(|_| !signal_names.contains(&name))
+                    .filter(|stripped_name| {
+                        signals.iter().any(|sig| {
+                            sig.name == *stripped_name
+                                && matches!(sig.typ, SignalType::Input { .. })
+                        })
+                    })
+                    .map(|stripped_name| stripped_name.to_string());
+                if let Some(stripped_name) = stripped_name {
                     bidirectional.insert(stripped_name);
                 } else {
                     test_signal_names.insert(name);
                 }
             }
         }
-
-        let signal_names: HashSet<String> = signals.iter().map(|s| s.name.clone()).collect();
 
         if !test_signal_names.is_subset(&signal_names) {
             let missing = test_signal_names
@@ -203,17 +214,14 @@ impl File {
 
         let mut signals = signals;
         for name in bidirectional {
-            let sig = signals
+            let input = signals
                 .iter_mut()
-                .find(|sig| sig.name == name)
-                .expect("We already checked that all test signals appear in the circuit");
-            let dir = std::mem::replace(&mut sig.typ, SignalType::Output);
-            let SignalType::Input { default } = dir else {
-                unreachable!(
-                    "By definition we know that there will be an input signal called {name}"
-                );
-            };
-            sig.typ = SignalType::Bidirectional { default };
+                .find(|sig| sig.name == name && matches!(sig.typ, SignalType::Input { .. }));
+            if let Some(sig) = input {
+                if let SignalType::Input { default } = sig.typ {
+                    sig.typ = SignalType::Bidirectional { default };
+                }
+            }
         }
 
         Ok(File {
